@@ -53,7 +53,10 @@ async def reset_interrupted_steps(workflow: Workflow, reporter: ReporterClient):
         )
         # Interrupted hash jobs (related to `UNCONFIRMED` files) don't need to be handled here.
         # See `rescan_files()` for how they are resolved.
-        failed_steps = workflow.steps(StepState.FAILED)
+        # Detached steps are included: the raw update above also resets a step that was running
+        # while detached, and such a step comes back FAILED, without being retried,
+        # when an ancestor of it is recycled and skipped.
+        failed_steps = workflow.steps(StepState.FAILED, include_detached=True)
 
     # Make all failed steps pending again, as they can be retried.
     if len(failed_steps) > 0:
